@@ -998,7 +998,7 @@ func (cg *grant) Clone() Grant {
 		container:  cg.GetContainer(),
 		exclusive:  cg.ExclusiveCPUs(),
 		cpuType:    cg.CPUType(),
-		cpuPortion: cg.SharedPortion(),
+		cpuPortion: cg.CPUPortion(),
 		memType:    cg.MemoryType(),
 		memZone:    cg.GetMemoryZone(),
 		memSize:    cg.GetMemorySize(),
